@@ -342,8 +342,11 @@ def generic(name, spec):
             fam = spec.get('alloc')
             if fam:
                 outs = []
-                may_fail = spec.get('input_fail') or (rule.alloc_may_fail if _is_routed(name) else
-                                                      getattr(rule, 'lib_alloc_may_fail', rule.alloc_may_fail))
+                alloc_fail = (rule.alloc_may_fail if _is_routed(name) else getattr(rule, 'lib_alloc_may_fail', rule.alloc_may_fail))
+                single = getattr(rule, 'single_fault', False)
+                if single and st.ts.get('faulted'):
+                    alloc_fail = False          # single-fault model: one allocation of the run fails, the others succeed
+                may_fail = spec.get('input_fail') or alloc_fail
                 s1 = st.clone() if may_fail else st
                 o = s1.newobj('%s@%s' % (name, site(node)))
                 if 'jtype' in spec:
@@ -353,7 +356,10 @@ def generic(name, spec):
                 outs.append((s1, Ref(o)))
                 if may_fail:
                     api_event(st, name, NULL, args, node)
-                    st.trace.append(('allocfail', name, node_loc(node)))
+                    if alloc_fail or not single:
+                        st.trace.append(('allocfail', name, node_loc(node)))
+                        if single:
+                            st.ts['faulted'] = True
                     outs.append((st, NULL))
                 return outs
             if spec.get('pure'):
